@@ -222,8 +222,9 @@ class Observation:
             #     We may want to consider an API for this.
             # Proposed API:
             # value = operator.attrgetter(step.key)(processor)
-            if "pipeline." in key:
-                model_name: str = key[: key.find(".arguments")]
+            if key.startswith("pipeline."):
+                # Name of the model: 'pipeline.<group>.<model>'
+                model_name: str = ".".join(key.split(".")[:3])
                 model_enabled: str = model_name + ".enabled"
                 if not processor.get(model_enabled):
                     raise ValueError(
